@@ -75,7 +75,7 @@ def modular_set(tier):
           ('implies', ('pred', '>=', ('neg', Y), F.C0), ('historically', (0, 1), ('pred', '<', ('neg', Y), X)))]
     out = []
     for f in fs:
-        for subs, text, defs, top in c09.variants_any(f, 4 if tier == 'quick' else 30, arith=True):
+        for subs, text, defs, top in c09.variants_any(f, 2 if tier == 'quick' else 30, arith=True):
             out.append((f, subs, text))
     return out
 
